@@ -33,18 +33,29 @@ TRUSTED = [
 ]
 ASSUMPTIONS = [
     "weights are >= 0 with a positive sum over the unmasked members of every cell (all-zero weights raise ZeroDivisionError in np.average: recorded by the malformed stream, outside the property)",
-    "categorical / mode predictions are masked row-wise (a member's whole class vector for a sample), as OnlineSelector builds them; loc and scale of a normal member carry the same mask",
+    "categorical / mode predictions are masked row-wise (a member's whole class vector for a sample), as OnlineSelector builds them",
+    "a normal member whose loc or scale is masked at a cell counts as masked there (union of the two masks; F80 until repaired)",
+    "a plain ndarray member, a MaskedArray with mask=nomask and one with an all-False mask all mean: nothing masked",
     "finite float inputs at the unmasked positions (no NaN / inf); under a mask anything may be stored (nan, +-inf, 1e308: exercised)",
     "a cell whose unmasked members all have weight 0 is undefined (numpy.ma: masked, or NaN for 0-d arrays) and is skipped",
 ]
 RULE = ("per aggregator: members 1..8, sample shapes 0-d..3-d, weights None/uniform/normalised/unnormalised/with zeros/dyadic, plain and masked, dyadic and "
         "general floats (plus 'members agree, scale ~ 0' for MixedNormal), from the seed; every case runs every option of the aggregator plus the metamorphic "
         "variants (None vs uniform weights, a permutation of members with weights, 7 kinds of data under the mask - finite, nan, +inf, -inf, 1e308, mixed, np.ma.masked_invalid - with tolerance 0, a fully masked member removed, zero-weight members "
-        "removed, one member split into two with 1/4 and 3/4 of its weight). non-trivial = at least 2 members and (non-uniform weights or a mask)")
+        "removed, one member split into two with 1/4 and 3/4 of its weight). Hand-over dimensions: members as MaskedArray / plain ndarray / nomask / all-False mask mixed in one call, "
+        "loc and scale with different masks, float64 / float32 / int64 (also > 2^31.5) members, weights as list / tuple / ndarray / python ints / int64 array, weights huge (2^300, 1e100), "
+        "tiny, 200 orders of magnitude apart, 1 ulp from uniform; half of the cases call every aggregator object first on other inputs (other shape, masked <-> plain); every call is "
+        "followed by: inputs and weights unchanged, then the caller edits inputs and weights in place and the outputs must not move. "
+        "non-trivial = at least 2 members and (non-uniform weights or a mask)")
 
 F_MEAN, F_MN, F_CONF, F_ENT, F_MODE, F_MODE_TODAY = 1901, 1902, 1903, 1904, 1905, 1906
-F_CLOSE, F_BETWEEN, F_VSPLIT, F_DISTR, F_CONFR, F_DECOMP, F_OKMODE = 1907, 1908, 1909, 1910, 1911, 1912, 1913
+F_CLOSE, F_BETWEEN, F_VSPLIT, F_DISTR, F_CONFR, F_DECOMP, F_OKMODE, F_MN2_TODAY, F_ALE_INT64 = 1907, 1908, 1909, 1910, 1911, 1912, 1913, 1914, 1915
 RTOL = Fraction(1, 10 ** 9)
+RTOL32 = Fraction(1, 10 ** 5) / 2  # float32 members: numpy reduces them in float32 (eps 1.2e-7)
+
+
+def rt(case):
+    return RTOL32 if case.get("dtype") == "f32" else RTOL
 NAN = "nan"
 SKIP = "undefined"  # a cell whose unmasked members all have weight 0: outside the property (numpy.ma answers masked, or NaN for 0-d)
 
@@ -82,6 +93,17 @@ def is_pow2(f):
     return n & (n - 1) == 0 and d & (d - 1) == 0
 
 
+def small_dyadic(f, bits=12):
+    """m * 2^k with |m| < 2^bits: products with small dyadic data and sums of a few of them are exact in binary64."""
+    f = Fraction(f)
+    n, d = abs(f.numerator), f.denominator
+    if d & (d - 1):
+        return False
+    while n and n % 2 == 0:
+        n //= 2
+    return n < 2 ** bits
+
+
 def dec_q(d):
     return Fraction(d[0], d[1])
 
@@ -100,6 +122,25 @@ def ncells(shape):
 
 def weights_of(case):
     return None if case["weights"] is None else [float(w) for w in case["weights"]]
+
+
+def weights_arg(case):
+    """The weights as the caller passes them: list (default), tuple, float64 / float32 / int64 ndarray, list of python ints."""
+    ws = weights_of(case)
+    if ws is None:
+        return None
+    t = case.get("wtype") or "list"
+    if t in ("int_list", "int_array") and any(w != int(w) for w in ws):
+        t = "list"
+    if t == "tuple":
+        return tuple(ws)
+    if t == "ndarray":
+        return np.array(ws, dtype=np.float64)
+    if t == "int_list":
+        return [int(w) for w in ws]
+    if t == "int_array":
+        return np.array([int(w) for w in ws], dtype=np.int64)
+    return list(ws)
 
 
 def wkind_of(ws):
@@ -140,19 +181,45 @@ def masked(data, mk, junk):
     return np.ma.array(data, mask=mk)
 
 
+def own_mask(case, key):
+    """The mask carried by the arrays of this key (loc and scale of normal members may carry different ones; case['mask'] is their union)."""
+    if key == "vals" and case.get("mask_loc") is not None:
+        return case["mask_loc"]
+    if key == "vals2" and case.get("mask_scale") is not None:
+        return case["mask_scale"]
+    return case["mask"]
+
+
+def wrap(case, key, i, data, mk, junk, finite):
+    """Member i as the caller passes it: 'ma' MaskedArray with its mask, 'plain' ndarray, 'nomask' MaskedArray without mask,
+    'allfalse' MaskedArray with an all-False mask.  A member with something masked is always 'ma'."""
+    kinds = case.get("kinds2" if key == "vals2" else "kinds")
+    if case.get("dtype") == "f32":
+        data = data.astype(np.float32)
+    kind = "ma" if (mk is not None and mk.any()) else (kinds[i] if kinds else ("ma" if mk is not None else "plain"))
+    if kind == "plain" or (kind == "ma" and mk is None):
+        return data
+    if kind == "nomask":
+        return np.ma.array(data)
+    if kind == "allfalse":
+        return np.ma.array(data, mask=np.zeros(data.shape, dtype=bool))
+    if junk:
+        with np.errstate(all="ignore"):
+            data = hide(data, mk, junk, i, finite).astype(data.dtype)  # 1e308 -> inf in float32
+    return masked(data, mk, junk)
+
+
 def scalar_arrays(case, key="vals", junk=None):
-    """Member arrays of shape case['shape'] (plain or masked); junk: what is stored under the mask (see JUNKS)."""
+    """Member arrays of shape case['shape']; junk: what is stored under the mask (see JUNKS)."""
     shape = tuple(case["shape"])
+    mask = own_mask(case, key)
     out = []
     for i in range(case["n"]):
         data = np.array(case[key][i], dtype=float).reshape(shape)
         if case.get("int_dtype"):
             data = data.astype(np.int64)
-        if case["mask"] is None:
-            out.append(data)
-        else:
-            mk = np.array(case["mask"][i], dtype=bool).reshape(shape)
-            out.append(masked(hide(data, mk, junk, i, lambda d: d * 3 + 17), mk, junk))
+        mk = None if mask is None else np.array(mask[i], dtype=bool).reshape(shape)
+        out.append(wrap(case, key, i, data, mk, junk, lambda d: d * 3 + 17))
     return out
 
 
@@ -163,13 +230,77 @@ def row_arrays(case, junk=None):
     out = []
     for i in range(case["n"]):
         data = np.array(case["vals"][i], dtype=float).reshape(shape + (K,))
-        if case["mask"] is None:
-            out.append(data)
-        else:
+        mk = None
+        if case["mask"] is not None:
             mk = np.array(case["mask"][i], dtype=bool).reshape(shape)
             mk = np.broadcast_to(mk[..., None], shape + (K,)).copy()
-            out.append(masked(hide(data, mk, junk, i, lambda d: 1.0 - d), mk, junk))
+        out.append(wrap(case, "vals", i, data, mk, junk, lambda d: 1.0 - d))
     return out
+
+
+# ---- one aggregator object reused, inputs not mutated, outputs not aliasing the inputs
+def decoy(arrays, rows):
+    """Other inputs for a warm-up call on the same aggregator object: other shape, masked <-> plain, at most 2 members."""
+    was_masked = any(isinstance(a, np.ma.MaskedArray) for a in arrays)
+    out = []
+    for a in arrays[:2]:
+        d = np.array(np.ma.getdata(a), dtype=float)
+        d = d.reshape((-1, d.shape[-1])) if rows else d.reshape(-1)
+        d = np.concatenate([d, d], axis=0)
+        if was_masked:
+            out.append(d)
+        else:
+            mk = np.zeros(d.shape, dtype=bool)
+            mk[0] = True
+            out.append(np.ma.array(d, mask=mk))
+    return out
+
+
+def snapshot(arrays, ws):
+    return ([(np.array(np.ma.getdata(a), copy=True), np.array(np.ma.getmaskarray(a), copy=True), type(a), a.dtype) for a in arrays],
+            None if ws is None else (type(ws), [float(w) for w in ws]))
+
+
+def scribble(arrays, ws):
+    """The caller edits what it passed in, after the call."""
+    for a in arrays:
+        d = np.ma.getdata(a)
+        with np.errstate(all="ignore"):
+            d[...] = d * 2 + 1
+        if isinstance(a, np.ma.MaskedArray) and a.mask is not np.ma.nomask:
+            mk = np.ma.getmaskarray(a)
+            mk[...] = ~mk
+    if isinstance(ws, (list, np.ndarray)) and len(ws):
+        ws[0] = ws[0] + 1
+
+
+def observed(case, name, arrays, runs, extract):
+    """Runs the aggregators (runs(ws) -> raw results) and returns extract(raw); around it: the inputs are not mutated
+    by the call, and the outputs do not follow a later edit of the inputs (no shared memory)."""
+    ws = weights_arg(case)
+    snap = snapshot(arrays, ws)
+    raw = runs(ws)
+    now = snapshot(arrays, ws)
+    for k, (a, b) in enumerate(zip(snap[0], now[0])):
+        if not (np.array_equal(a[0], b[0], equal_nan=True) and np.array_equal(a[1], b[1]) and a[2] is b[2] and a[3] == b[3]):
+            raise Fail("oracle", name + ":input_mutated", dict(member_array=k))
+    if snap[1] != now[1]:
+        raise Fail("oracle", name + ":weights_mutated", dict(before=str(snap[1]), after=str(now[1])))
+    out = extract(raw)
+    scribble(arrays, ws)
+    if extract(raw) != out:
+        raise Fail("oracle", name + ":output_aliases_input", "the returned arrays changed when the caller edited its inputs after the call")
+    return out
+
+
+def warm(case, agg, arrays, rows, as_dict=False):
+    """Pattern 'one object, several calls': a first call with other inputs must leave nothing behind."""
+    if not case.get("reuse"):
+        return agg
+    d = decoy(arrays, rows)
+    y = [dict(loc=a, scale=np.abs(a)) for a in d] if as_dict else d
+    call_impl(None, "warm-up call on the same object", lambda: agg.aggregate(y))
+    return agg
 
 
 def cells_of(arr, n):
@@ -234,7 +365,11 @@ def enc_weights(case):
         return []
     f = [fr(w) for w in ws]
     s = common_scale(f)
-    return [[int(x * s) for x in f]]
+    ints = [int(x * s) for x in f]
+    g = 0
+    for x in ints:
+        g = _gcd(g, x)
+    return [[x // (g or 1) for x in ints]]  # any common factor may be dropped: C19_weights_rescaled
 
 
 # ----------------------------------------------------------------------------------------------- comparison
@@ -293,18 +428,17 @@ def run(agg, y, weights):
     return agg.aggregate(y, weights=weights) if weights is not None else agg.aggregate(y)
 
 
+MEMBER_KEYS = ("vals", "vals2", "mask", "mask_loc", "mask_scale", "kinds", "kinds2")
+
+
 def permuted(case):
     p = case.get("perm")
     if not p or p == list(range(case["n"])):
         return None
     c = dict(case)
-    c["vals"] = [case["vals"][i] for i in p]
-    if "vals2" in case:
-        c["vals2"] = [case["vals2"][i] for i in p]
-    if case["mask"] is not None:
-        c["mask"] = [case["mask"][i] for i in p]
-    if case["weights"] is not None:
-        c["weights"] = [case["weights"][i] for i in p]
+    for k in MEMBER_KEYS + ("weights",):
+        if case.get(k) is not None:
+            c[k] = [case[k][i] for i in p]
     return c
 
 
@@ -321,7 +455,7 @@ def fully_masked_member(case):
 def without_member(case, i):
     c = dict(case)
     c["n"] = case["n"] - 1
-    for k in ("vals", "vals2", "mask", "weights"):
+    for k in MEMBER_KEYS + ("weights",):
         if case.get(k) is not None:
             c[k] = case[k][:i] + case[k][i + 1:]
     c["perm"] = None
@@ -347,7 +481,7 @@ def split_member(case):
     ws = weights_of(case) or [1.0] * case["n"]
     c = dict(case)
     c["n"] = case["n"] + 1
-    for k in ("vals", "vals2", "mask"):
+    for k in MEMBER_KEYS:
         if case.get(k) is not None:
             c[k] = case[k][:j + 1] + [case[k][j]] + case[k][j + 1:]
     c["weights"] = ws[:j] + [ws[j] * 0.25, ws[j] * 0.75] + ws[j + 1:]
@@ -375,7 +509,8 @@ def base_result(case, extra_desc=()):
     k = wkind_of(ws)
     nt = case["n"] >= 2 and (case["mask"] is not None or k.split("+")[0] in ("normalised", "unnormalised") or "zeros" in k)
     nex = sum(exact_cells(case)) if case["agg"] != "malformed" else 0
-    extra_desc = list(extra_desc) + ["exact_cells=%s" % ("0" if nex == 0 else "some")]
+    extra_desc = list(extra_desc) + ["exact_cells=%s" % ("0" if nex == 0 else "some"), "wtype=%s" % (case.get("wtype") or "list"), "dtype=%s" % (case.get("dtype") or ("int64" if case.get("int_dtype") else "f64")),
+                                     "reuse=%s" % bool(case.get("reuse")), "members=%s" % ("uniform-kind" if not case.get("kinds") else "mixed-kinds"), "partial_masks=%s" % partial_masks(case)]
     return dict(ok=True, kind="oracle", clause="", nontrivial=nt,
                 sig=dict(agg=case["agg"], masked=case["mask"] is not None),
                 desc=["n=%d" % case["n"], "w=" + k, "masked=%s" % (case["mask"] is not None), "dims=%d" % len(case["shape"]),
@@ -419,20 +554,27 @@ def impl_mean(case, junk=None):
     from deephyper.ensemble.aggregator import MeanAggregator
 
     y = scalar_arrays(case, junk=junk)
-    ws = weights_of(case)
     n = ncells(case["shape"])
-    r0 = call_impl(None, "with_scale=False", lambda: run(MeanAggregator(), y, ws))
-    r1 = call_impl(None, "with_scale=True", lambda: run(MeanAggregator(with_scale=True), y, ws))
-    if not isinstance(r1, dict) or set(r1) != {"loc", "scale"}:
-        raise Fail("oracle", "mean:keys", str(type(r1)))
-    if np.shape(r0) != tuple(case["shape"]) or np.shape(r1["loc"]) != tuple(case["shape"]) or np.shape(r1["scale"]) != tuple(case["shape"]):
-        raise Fail("oracle", "mean:shape", dict(loc=np.shape(r0), scale=np.shape(r1["scale"])))
-    loc, loc1, scale = cells_of(r0, n), cells_of(r1["loc"], n), cells_of(r1["scale"], n)
-    if loc != loc1:
+
+    def runs(ws):
+        r0 = call_impl(None, "with_scale=False", lambda: run(warm(case, MeanAggregator(), y, False), y, ws))
+        r1 = call_impl(None, "with_scale=True", lambda: run(warm(case, MeanAggregator(with_scale=True), y, False), y, ws))
+        if not isinstance(r1, dict) or set(r1) != {"loc", "scale"}:
+            raise Fail("oracle", "mean:keys", str(type(r1)))
+        if np.shape(r0) != tuple(case["shape"]) or np.shape(r1["loc"]) != tuple(case["shape"]) or np.shape(r1["scale"]) != tuple(case["shape"]):
+            raise Fail("oracle", "mean:shape", dict(loc=np.shape(r0), scale=np.shape(r1["scale"])))
+        return r0, r1
+
+    def extract(raw):
+        r0, r1 = raw
+        return dict(loc=cells_of(r0, n), loc1=cells_of(r1["loc"], n), scale=cells_of(r1["scale"], n))
+
+    o = observed(case, "mean", y, runs, extract)
+    if o["loc"] != o["loc1"]:
         raise Fail("oracle", "mean:loc_differs_between_options")
-    if any(isinstance(s, Fraction) and s < 0 for s in scale):
+    if any(isinstance(x, Fraction) and x < 0 for x in o["scale"]):
         raise Fail("oracle", "mean:negative_scale")
-    return mark_undefined(case, dict(loc=loc, var=sq(scale)))
+    return mark_undefined(case, dict(loc=o["loc"], var=sq(o["scale"])))
 
 
 def scalar_cells(case, keys=("vals",)):
@@ -469,6 +611,8 @@ def magnitudes(case, f):
 def exact_cells(case):
     if case.get("num") != "dyadic":
         return [False] * ncells(case["shape"])
+    if any(not small_dyadic(w) for w in member_weights(case)):
+        return [False] * ncells(case["shape"])  # e.g. 1/3, 1/3, 1/3 + 1 ulp sums to exactly 1, but the products round
     tot = sum(member_weights(case), Fraction(0))  # also a power of two: exact even if the weights are normalised first
     return [is_pow2(tot) and is_pow2(remaining_weight(case, c)) for c in range(ncells(case["shape"]))]
 
@@ -482,8 +626,8 @@ def check_mean_body(case, res):
     mod_loc = [None if (o := dec_opt(r[0])) is None else o / s for r in out]
     mod_var = [None if (o := dec_opt(r[1])) is None else o / (s * s) for r in out]
     mag1 = magnitudes(case, lambda i, c: abs(fr(case["vals"][i][c])))
-    tol1 = [RTOL * (1 + g) for g in mag1]
-    tol2 = [RTOL * (1 + g * g) for g in mag1]
+    tol1 = [rt(case) * (1 + g) for g in mag1]
+    tol2 = [rt(case) * (1 + g * g) for g in mag1]
     ex = exact_cells(case)
     # --- property clauses on the implementation's outputs first (an oracle failure outranks a correspondence break) ---
     # between the extremes of the members that count (unmasked, positive weight)
@@ -509,6 +653,9 @@ def metamorphic(case, imp, impl, tols, m, name):
     """uniform = None; permutation invariance; masked entries ignored (junk under the mask, masked member removed).
     A failure carries the partner case and its outputs (f.partner) so that the caller can classify it."""
     def pair(label, other_case, tl, **kw):
+        ow = weights_of(other_case)
+        if other_case["n"] == 0 or (ow is not None and sum(ow) == 0):
+            return  # all-zero weights: no mixture (np.average raises ZeroDivisionError) - outside the property
         try:
             other = impl(other_case, **kw)
         except Fail as f:  # the variant raised / returned a malformed result where the base run did not
@@ -555,29 +702,41 @@ check_mean = guarded(check_mean_body)
 
 
 # ----------------------------------------------------------------------------------------------- MixedNormalAggregator
-def impl_mn(case, junk=None):
+def impl_mn(case, junk=None, raw=False):
     from deephyper.ensemble.aggregator import MixedNormalAggregator
 
     locs = scalar_arrays(case, "vals", junk=junk)
     scales = scalar_arrays(case, "vals2", junk=junk)
     y = [dict(loc=a, scale=b) for a, b in zip(locs, scales)]
-    ws = weights_of(case)
     n = ncells(case["shape"])
-    r0 = call_impl(None, "decomposed_scale=False", lambda: run(MixedNormalAggregator(), y, ws))
-    r1 = call_impl(None, "decomposed_scale=True", lambda: run(MixedNormalAggregator(decomposed_scale=True), y, ws))
-    if set(r0) != {"loc", "scale"} or set(r1) != {"loc", "scale_aleatoric", "scale_epistemic"}:
-        raise Fail("oracle", "mn:keys", dict(a=sorted(r0), b=sorted(r1)))
-    for k, v in list(r0.items()) + list(r1.items()):
-        if np.shape(v) != tuple(case["shape"]):
-            raise Fail("oracle", "mn:shape", dict(key=k, shape=np.shape(v)))
-    loc, loc1 = cells_of(r0["loc"], n), cells_of(r1["loc"], n)
-    if loc != loc1:
+
+    def runs(ws):
+        r0 = call_impl(None, "decomposed_scale=False", lambda: run(warm(case, MixedNormalAggregator(), locs, False, True), y, ws))
+        r1 = call_impl(None, "decomposed_scale=True", lambda: run(warm(case, MixedNormalAggregator(decomposed_scale=True), locs, False, True), y, ws))
+        if set(r0) != {"loc", "scale"} or set(r1) != {"loc", "scale_aleatoric", "scale_epistemic"}:
+            raise Fail("oracle", "mn:keys", dict(a=sorted(r0), b=sorted(r1)))
+        for k, v in list(r0.items()) + list(r1.items()):
+            if np.shape(v) != tuple(case["shape"]):
+                raise Fail("oracle", "mn:shape", dict(key=k, shape=np.shape(v)))
+        return r0, r1
+
+    def extract(raw):
+        r0, r1 = raw
+        return dict(loc=cells_of(r0["loc"], n), loc1=cells_of(r1["loc"], n), total=cells_of(r0["scale"], n),
+                    ale=cells_of(r1["scale_aleatoric"], n), epi=cells_of(r1["scale_epistemic"], n))
+
+    o = observed(case, "mn", locs + scales, runs, extract)
+    if o["loc"] != o["loc1"]:
         raise Fail("oracle", "mn:loc_differs_between_options")
-    sc = [cells_of(r0["scale"], n), cells_of(r1["scale_aleatoric"], n), cells_of(r1["scale_epistemic"], n)]
-    for s in sc:
-        if any(isinstance(x, Fraction) and x < 0 for x in s):
+    for k in ("total", "ale", "epi"):
+        if any(isinstance(x, Fraction) and x < 0 for x in o[k]):
             raise Fail("oracle", "mn:negative_scale")
-    return mark_undefined(case, dict(loc=loc, total=sq(sc[0]), ale=sq(sc[1]), epi=sq(sc[2])))
+    res = dict(loc=o["loc"], total=sq(o["total"]), ale=sq(o["ale"]), epi=sq(o["epi"]))
+    return res if raw else mark_undefined(case, res)
+
+
+def impl_mn_raw(case):
+    return impl_mn(case, raw=True)
 
 
 def mn_model(case, m):
@@ -589,7 +748,23 @@ def mn_model(case, m):
         mod[k] = [None if (o := dec_opt(r[j])) is None else o / d for r in out]
     mag1 = magnitudes(case, lambda i, c: abs(fr(case["vals"][i][c])))
     mag2 = magnitudes(case, lambda i, c: fr(case["vals"][i][c]) ** 2 + fr(case["vals2"][i][c]) ** 2)
-    return mod, [RTOL * (1 + g) for g in mag1], [RTOL * (1 + g) for g in mag2]
+    return mod, [rt(case) * (1 + g) for g in mag1], [rt(case) * (1 + g) for g in mag2]
+
+
+def partial_masks(case):
+    """loc and scale of some normal member carry different masks (F80)."""
+    return case["agg"] == "mn" and case["mask"] is not None and own_mask(case, "vals") != own_mask(case, "vals2")
+
+
+def mn_partial_today(case, m):
+    """The pinned tree's statistics when loc and scale carry different masks (Coq: mn2_*_today)."""
+    fl = [fr(v) for k in ("vals", "vals2") for row in case[k] for v in row]
+    s = common_scale(fl)
+    ml, ms = own_mask(case, "vals"), own_mask(case, "vals2")
+    cells = [[[[] if ml[i][c] else [int(fr(case["vals"][i][c]) * s)], [] if ms[i][c] else [int(fr(case["vals2"][i][c]) * s)]]
+              for i in range(case["n"])] for c in range(ncells(case["shape"]))]
+    out = m.call(F_MN2_TODAY, [enc_weights(case), cells])
+    return {k: [None if (o := dec_opt(r[j])) is None else o / (s if k == "loc" else s * s) for r in out] for j, k in enumerate(["loc", "total", "ale", "epi"])}
 
 
 def same(a, b, tols):
@@ -622,6 +797,19 @@ def check_mn_body(case, res):
                 and mod["total"][c] is not None and mod["total"][c] <= tol2[c]:
             extra["cancellation"] = True
             f.kind = "oracle"
+        if case.get("int_dtype") and max(abs(v) for row in case["vals2"] for v in row) >= 3037000500:
+            # integer-typed scale whose square passes 2^63 (F81): does the aleatoric part follow the int64 wrap-around model?
+            cells, s1 = scalar_cells(case, ("vals", "vals2"))
+            wrapped = [None if (o := dec_opt(r)) is None else o for r in m.call(F_ALE_INT64, [enc_weights(case), cells])] if s1 == 1 else []
+            raw = impl_mn_raw(case)["ale"]
+            extra["int64_square_overflow"] = bool(wrapped) and all(
+                ((a == NAN or a is None) and w is not None and w < 0) or (isinstance(a, Fraction) and w is not None and w >= 0 and abs(a - w) <= t) for a, w, t in zip(raw, wrapped, tol2)) \
+                and not same(raw, mod["ale"], tol2)
+        if partial_masks(case):
+            td = mn_partial_today(case, m)
+            raw = impl_mn_raw(case)
+            extra["today_partial"] = bool(all(same(raw[k], td[k], tol1 if k == "loc" else tol2) for k in ("loc", "total", "ale", "epi"))
+                                          and not all(same(raw[k], mod[k], tol1 if k == "loc" else tol2) for k in ("loc", "total", "ale", "epi")))
         if "epi" in f.clause or f.clause == "mn:variance_split":
             partner = getattr(f, "partner", None)
             extra["today"] = bool(follows_today(case, imp) or (partner is not None and follows_today(*partner)))
@@ -661,34 +849,46 @@ def impl_cat(case, junk=None):
     from deephyper.ensemble.aggregator import MixedCategoricalAggregator
 
     y = row_arrays(case, junk=junk)
-    ws = weights_of(case)
     n, K = ncells(case["shape"]), case["K"]
-    out = {}
-    locs = []
-    for meth in ("confidence", "entropy"):
-        r0 = call_impl(None, "%s,decomposed=False" % meth, lambda: run(MixedCategoricalAggregator(uncertainty_method=meth), y, ws))
-        r1 = call_impl(None, "%s,decomposed=True" % meth, lambda: run(MixedCategoricalAggregator(uncertainty_method=meth, decomposed_uncertainty=True), y, ws))
-        if set(r0) != {"loc", "uncertainty"} or set(r1) != {"loc", "uncertainty_aleatoric", "uncertainty_epistemic"}:
-            raise Fail("oracle", "cat:keys", dict(a=sorted(r0), b=sorted(r1)))
-        for r in (r0, r1):
-            if np.shape(r["loc"]) != tuple(case["shape"]) + (K,):
-                raise Fail("oracle", "cat:shape", dict(loc=np.shape(r["loc"])))
-            locs.append(cells_of(r["loc"], n * K))
-        for k in ("uncertainty",):
-            if np.shape(r0[k]) != tuple(case["shape"]):
-                raise Fail("oracle", "cat:shape", dict(key=k, shape=np.shape(r0[k])))
-        for k in ("uncertainty_aleatoric", "uncertainty_epistemic"):
-            if np.shape(r1[k]) != tuple(case["shape"]):
-                raise Fail("oracle", "cat:shape", dict(key=k, shape=np.shape(r1[k])))
-        out[meth + "_total"] = cells_of(r0["uncertainty"], n)
-        out[meth + "_ale"] = cells_of(r1["uncertainty_aleatoric"], n)
-        out[meth + "_epi"] = cells_of(r1["uncertainty_epistemic"], n)
-        if meth == "entropy":
-            out["loc_array"] = np.ma.getdata(r0["loc"]).reshape(n, K)
+
+    def runs(ws):
+        raw = {}
+        for meth in ("confidence", "entropy"):
+            r0 = call_impl(None, "%s,decomposed=False" % meth, lambda: run(warm(case, MixedCategoricalAggregator(uncertainty_method=meth), y, True), y, ws))
+            r1 = call_impl(None, "%s,decomposed=True" % meth, lambda: run(warm(case, MixedCategoricalAggregator(uncertainty_method=meth, decomposed_uncertainty=True), y, True), y, ws))
+            if set(r0) != {"loc", "uncertainty"} or set(r1) != {"loc", "uncertainty_aleatoric", "uncertainty_epistemic"}:
+                raise Fail("oracle", "cat:keys", dict(a=sorted(r0), b=sorted(r1)))
+            for r in (r0, r1):
+                if np.shape(r["loc"]) != tuple(case["shape"]) + (K,):
+                    raise Fail("oracle", "cat:shape", dict(loc=np.shape(r["loc"])))
+            for k, v in [("uncertainty", r0["uncertainty"]), ("uncertainty_aleatoric", r1["uncertainty_aleatoric"]), ("uncertainty_epistemic", r1["uncertainty_epistemic"])]:
+                if np.shape(v) != tuple(case["shape"]):
+                    raise Fail("oracle", "cat:shape", dict(key=k, shape=np.shape(v)))
+            raw[meth] = (r0, r1)
+        return raw
+
+    def extract(raw):
+        out = {}
+        for meth, (r0, r1) in raw.items():
+            out[meth + "_loc0"] = cells_of(r0["loc"], n * K)
+            out[meth + "_loc1"] = cells_of(r1["loc"], n * K)
+            out[meth + "_total"] = cells_of(r0["uncertainty"], n)
+            out[meth + "_ale"] = cells_of(r1["uncertainty_aleatoric"], n)
+            out[meth + "_epi"] = cells_of(r1["uncertainty_epistemic"], n)
+        e0 = raw["entropy"][0]["loc"]
+        out["loc_rows"] = [[float(x) for x in row] for row in np.asarray(np.ma.getdata(e0), dtype=float).reshape(n, K)]
+        out["loc_dtype"] = str(np.asarray(np.ma.getdata(e0)).dtype)
+        return out
+
+    o = observed(case, "cat", y, runs, extract)
+    locs = [o.pop(m + k) for m in ("confidence", "entropy") for k in ("_loc0", "_loc1")]
     if any(l != locs[0] for l in locs[1:]):
         raise Fail("oracle", "cat:loc_differs_between_options")
-    out["loc"] = locs[0]
-    return mark_undefined(case, out, K, ("loc",))
+    o["loc"] = locs[0]
+    rows, dt = o.pop("loc_rows"), o.pop("loc_dtype")
+    o = mark_undefined(case, o, K, ("loc",))
+    o["loc_array"] = np.array(rows, dtype=np.float32 if dt == "float32" else np.float64).reshape(n, K)
+    return o
 
 
 def row_cells(case):
@@ -700,8 +900,8 @@ def row_cells(case):
     return rows, s
 
 
-def row_is_distribution(row):
-    return all(v >= 0 for v in row) and abs(sum(fr(v) for v in row) - 1) <= Fraction(1, 10 ** 12)
+def row_is_distribution(row, tol=Fraction(1, 10 ** 12)):
+    return all(v >= 0 for v in row) and abs(sum(fr(v) for v in row) - 1) <= tol
 
 
 def check_cat_body(case, res):
@@ -710,18 +910,19 @@ def check_cat_body(case, res):
     imp = impl_cat(case)
     ex = exact_cells(case)
     exK = [e for e in ex for _ in range(K)]
-    tol = [RTOL * 2] * n
-    tolK = [RTOL * 2] * (n * K)
-    tolE = [RTOL * 10] * n
+    R = rt(case)
+    tol = [R * 2] * n
+    tolK = [R * 2] * (n * K)
+    tolE = [R * 10] * n
     stats = ("confidence_total", "confidence_ale", "confidence_epi", "entropy_total", "entropy_ale", "entropy_epi")
     for k in stats + ("loc",):
         for c, v in enumerate(imp[k]):
             if v == NAN:
                 raise Fail("oracle", "cat:%s:nan" % k, dict(cell=c))
     # --- property clauses on the implementation's outputs (when the rows of every member are distributions) ---
-    if all(row_is_distribution(case["vals"][i][c]) for i in range(case["n"]) for c in range(n)):
+    if all(row_is_distribution(case["vals"][i][c], max(Fraction(1, 10 ** 12), R / 10 if case.get("dtype") == "f32" else 0)) for i in range(case["n"]) for c in range(n)):
         live = [c for c in range(n) if all(isinstance(imp[k][c], Fraction) for k in stats) and all(isinstance(x, Fraction) for x in imp["loc"][c * K:(c + 1) * K])]
-        t2 = qp(RTOL * 2)
+        t2 = qp(R * 2)
         oks = m.call(F_DISTR, [t2, K, [[qp(x) for x in imp["loc"][c * K:(c + 1) * K]] for c in live]])
         for ok, c in zip(oks, live):
             if not ok:
@@ -732,7 +933,7 @@ def check_cat_body(case, res):
                 raise Fail("oracle", "cat:confidence_range", dict(row=c, uncertainty=float(imp["confidence_total"][c])))
         for meth, strict in (("confidence", True), ("entropy", False)):
             items = [[qp(imp[meth + "_total"][c]), qp(imp[meth + "_ale"][c]), qp(imp[meth + "_epi"][c])] for c in live]
-            oks = m.call(F_DECOMP, [qp(RTOL * (2 if strict else 10)), strict, items])
+            oks = m.call(F_DECOMP, [qp(R * (2 if strict else 10)), strict, items])
             for ok, c in zip(oks, live):
                 if not ok:
                     raise Fail("oracle", "cat:decomposition:" + meth, dict(row=c, total=float(imp[meth + "_total"][c]), aleatoric=float(imp[meth + "_ale"][c]), epistemic=float(imp[meth + "_epi"][c])))
@@ -757,11 +958,13 @@ def check_cat_body(case, res):
     for k in ("confidence_total", "confidence_ale", "confidence_epi"):
         compare("cat:" + k, imp[k], mod[k], tol, ex)
     # entropy: the log values are numpy's (oracle), for the members' probabilities and for the aggregated ones
-    eps = float(np.finfo(np.float64).eps)
+    # (in the dtype numpy uses: float32 members -> eps and log of float32)
+    mdt = np.float32 if case.get("dtype") == "f32" else np.float64
+    ldt = imp["loc_array"].dtype.type
     lfl = []
     with np.errstate(all="ignore"):
-        mem_logs = [[None if masked_at(case, i, c) else [fr(x) for x in np.log(np.array(case["vals"][i][c], dtype=float) + eps)] for i in range(case["n"])] for c in range(n)]
-        ens_logs = [[fr(x) if np.isfinite(x) else Fraction(0) for x in np.log(np.maximum(imp["loc_array"][c], 0) + eps)] for c in range(n)]
+        mem_logs = [[None if masked_at(case, i, c) else [fr(x) for x in np.log(np.array(case["vals"][i][c], dtype=mdt) + np.finfo(mdt).eps)] for i in range(case["n"])] for c in range(n)]
+        ens_logs = [[fr(x) if np.isfinite(x) else Fraction(0) for x in np.log(np.maximum(np.nan_to_num(imp["loc_array"][c]), 0) + np.finfo(ldt).eps)] for c in range(n)]
     for c in range(n):
         for l in mem_logs[c]:
             lfl += l or []
@@ -782,22 +985,29 @@ def impl_mode(case, junk=None):
     from deephyper.ensemble.aggregator import ModeAggregator
 
     y = row_arrays(case, junk=junk)
-    ws = weights_of(case)
     n = ncells(case["shape"])
     zd = len(case["shape"]) == 0
-    r0 = call_impl(zd, "with_uncertainty=False", lambda: run(ModeAggregator(), y, ws))
-    r1 = call_impl(zd, "with_uncertainty=True", lambda: run(ModeAggregator(with_uncertainty=True), y, ws))
-    if not isinstance(r1, dict) or set(r1) != {"loc", "uncertainty"}:
-        raise Fail("oracle", "mode:keys")
-    for v in (r0, r1["loc"], r1["uncertainty"]):
-        if np.shape(v) != tuple(case["shape"]):
-            raise Fail("oracle", "mode:shape", dict(shape=np.shape(v)))
-    if not np.issubdtype(np.asarray(np.ma.getdata(r0)).dtype, np.integer):
-        raise Fail("oracle", "mode:not_integer")
-    loc, loc1 = cells_of(r0, n), cells_of(r1["loc"], n)
-    if loc != loc1:
+
+    def runs(ws):
+        r0 = call_impl(zd, "with_uncertainty=False", lambda: run(warm(case, ModeAggregator(), y, True), y, ws))
+        r1 = call_impl(zd, "with_uncertainty=True", lambda: run(warm(case, ModeAggregator(with_uncertainty=True), y, True), y, ws))
+        if not isinstance(r1, dict) or set(r1) != {"loc", "uncertainty"}:
+            raise Fail("oracle", "mode:keys")
+        for v in (r0, r1["loc"], r1["uncertainty"]):
+            if np.shape(v) != tuple(case["shape"]):
+                raise Fail("oracle", "mode:shape", dict(shape=np.shape(v)))
+        if not np.issubdtype(np.asarray(np.ma.getdata(r0)).dtype, np.integer):
+            raise Fail("oracle", "mode:not_integer")
+        return r0, r1
+
+    def extract(raw):
+        r0, r1 = raw
+        return dict(mode=cells_of(r0, n), mode1=cells_of(r1["loc"], n), unc=cells_of(r1["uncertainty"], n))
+
+    o = observed(case, "mode", y, runs, extract)
+    if o["mode"] != o["mode1"]:
         raise Fail("oracle", "mode:loc_differs_between_options")
-    return mark_undefined(case, dict(mode=loc, unc=cells_of(r1["uncertainty"], n)))
+    return mark_undefined(case, dict(mode=o["mode"], unc=o["unc"]))
 
 
 def mode_variant(case, m, norm):
@@ -840,7 +1050,7 @@ def check_mode_body(case, res):
     W = enc_weights(case)
     out = m.call(F_MODE, [W, K, rows])
     mod = [None if not r else (r[0], [dec_q(x) for x in r[1]], dec_q(r[2])) for r in out]
-    tolq = RTOL * 2
+    tolq = rt(case) * 2
     tol = [tolq] * n
     ex = exact_cells(case)
 
@@ -930,7 +1140,7 @@ def check_malformed(case):
 
 # ----------------------------------------------------------------------------------------------- generators
 SHAPES = [[], [1], [3], [5], [2, 2], [2, 3], [1, 4], [2, 1, 3], [2, 2, 2]]
-WKINDS = ["none", "uniform", "normalised", "unnormalised", "zeros", "dyadic", "none", "skewed"]
+WKINDS = ["none", "uniform", "normalised", "unnormalised", "zeros", "dyadic", "none", "skewed", "huge", "tiny", "ulp", "wide"]
 
 
 def gen_weights(rng, n, kind, dyadic):
@@ -966,7 +1176,67 @@ def gen_weights(rng, n, kind, dyadic):
         if not any(w):
             w[rng.randrange(n)] = 1.0
         return w
+    if kind in ("huge", "tiny"):
+        # weights are mixture weights: only their ratios matter (C19_weights_rescaled), whatever their magnitude
+        if dyadic:
+            base = gen_weights(rng, n, "dyadic", True)
+            f = 2.0 ** (300 if kind == "huge" else -300)
+        else:
+            base = [rng.uniform(1, 9) for _ in range(n)]
+            f = 1e100 if kind == "huge" else 1e-100
+        return [b * f for b in base]
+    if kind == "ulp":
+        # one weight 1 ulp above the others: NOT uniform, but within rounding of it
+        c = rng.choice([1.0, 0.3, 2.5, 1.0 / n])
+        w = [c] * n
+        if n >= 2:
+            w[rng.randrange(n)] = float(np.nextafter(c, np.inf))
+        return w
+    if kind == "wide":
+        # 200 orders of magnitude between the weights of one call (small cases only: the exact model works on 700-bit integers)
+        w = [rng.uniform(1, 9) * rng.choice([1e-100, 1e100, 1.0]) for _ in range(n)]
+        w[rng.randrange(n)] = rng.uniform(1, 9) * 1e100
+        return w
     raise ValueError(kind)
+
+
+def decorate(rng, case, dyadic):
+    """Blind-spot dimensions: how the caller hands things over (containers, dtypes, object reuse), mixtures of plain and
+    masked members, loc / scale of a normal member with different masks."""
+    n, cells = case["n"], ncells(case["shape"])
+    case["reuse"] = rng.random() < 0.5
+    ws = case["weights"]
+    if ws is not None:
+        ints = all(w == int(w) and abs(w) < 2 ** 53 for w in ws)
+        case["wtype"] = rng.choice(["list", "tuple", "ndarray"] + (["int_list", "int_array"] * 2 if ints else []))
+    if rng.random() < 0.12 and not case.get("int_dtype") and case.get("num") != "float-degenerate":
+        case["dtype"] = "f32"
+        for k in ("vals", "vals2"):
+            if k in case:
+                case[k] = _map_leaves(case[k], lambda v: float(np.float32(v)))
+    if rng.random() < 0.4:
+        # mixed population: some members are plain ndarrays / MaskedArrays without a mask / with an all-False mask
+        kinds = [rng.choice(["ma", "plain", "plain", "nomask", "allfalse"]) for _ in range(n)]
+        if case["mask"] is not None:
+            for i in range(n):
+                if kinds[i] != "ma" and rng.random() < 0.7:
+                    case["mask"][i] = [False] * cells
+        case["kinds"] = kinds
+        if case["agg"] == "mn":
+            case["kinds2"] = kinds if rng.random() < 0.5 else [rng.choice(["ma", "plain", "nomask", "allfalse"]) for _ in range(n)]
+    if case["agg"] == "mn" and case["mask"] is not None and rng.random() < 0.25:
+        # loc and scale of a member with different masks; case['mask'] (what the member counts as) is their union
+        style = rng.choice(["loc_only", "scale_only", "different"])
+        none = [[False] * cells for _ in range(n)]
+        other = gen_mask(rng, n, cells)
+        case["mask_loc"] = none if style == "scale_only" else case["mask"]
+        case["mask_scale"] = none if style == "loc_only" else (case["mask"] if style == "scale_only" else other)
+        case["mask"] = [[a or b for a, b in zip(ra, rb)] for ra, rb in zip(case["mask_loc"], case["mask_scale"])]
+    return case
+
+
+def _map_leaves(x, f):
+    return [_map_leaves(y, f) for y in x] if isinstance(x, list) else f(x)
 
 
 def gen_mask(rng, n, cells):
@@ -999,6 +1269,8 @@ def gen_scalar(agg, count):
             shape = rng.choice(SHAPES) if tier != "search" else rng.choice([[], [2]])
             cells = ncells(shape)
             wk = WKINDS[(j // 2) % len(WKINDS)]
+            if wk == "wide" and (n > 3 or cells > 3):
+                n, shape, cells = min(n, 3), [min(cells, 2)], min(cells, 2)
             ws = gen_weights(rng, n, wk, dyadic)
             spread = rng.choice([1.0, 10.0, 100.0, 0.01])
             base = scalar_value(rng, dyadic, spread)
@@ -1019,10 +1291,15 @@ def gen_scalar(agg, count):
                     case["vals2"] = [[rng.randint(0, 16) / 8.0 for _ in range(cells)] for _ in range(n)]
                 else:
                     case["vals2"] = [[rng.uniform(0.05, 3.0) * spread for _ in range(cells)] for _ in range(n)]
-            if dyadic and agg == "mean" and case["mask"] is None and rng.random() < 0.1:
-                case["vals"] = [[float(round(v)) for v in row] for row in vals]
+            if dyadic and case["mask"] is None and rng.random() < 0.1:
+                # integer-typed arrays; half of them with magnitudes whose squares / products pass 2^63
+                big = rng.random() < 0.5
+                lim = 4_000_000_000 if big else 40
+                case["vals"] = [[float(rng.randint(-lim, lim)) for _ in row] for row in vals]
+                if agg == "mn":
+                    case["vals2"] = [[float(rng.randint(0, lim)) for _ in row] for row in vals]
                 case["int_dtype"] = True
-            yield case
+            yield decorate(rng, case, dyadic)
     return gen
 
 
@@ -1066,13 +1343,15 @@ def gen_rows(agg, count):
             cells = ncells(shape)
             K = rng.choice([1, 2, 2, 3, 3, 4, 5])
             wk = WKINDS[(j // 2) % len(WKINDS)]
+            if wk == "wide" and (n > 3 or cells > 3):
+                n, shape, cells = min(n, 3), [min(cells, 2)], min(cells, 2)
             ws = gen_weights(rng, n, wk, dyadic)
             vals = [[gen_prob_row(rng, K, dyadic) for _ in range(cells)] for _ in range(n)]
             if rng.random() < 0.2 and n >= 2:  # members that agree on every row
                 vals = [vals[0] if rng.random() < 0.7 else v for v in vals]
-            yield dict(agg=agg, n=n, shape=shape, K=K, vals=vals, weights=ws, num="dyadic" if dyadic else "float",
-                       mask=gen_mask(rng, n, cells) if rng.random() < 0.4 else None,
-                       perm=rng.sample(range(n), n), uniform_c=rng.choice([1.0, 0.5, 3.0, 1.0 / n]), split=rng.randrange(n))
+            yield decorate(rng, dict(agg=agg, n=n, shape=shape, K=K, vals=vals, weights=ws, num="dyadic" if dyadic else "float",
+                                     mask=gen_mask(rng, n, cells) if rng.random() < 0.4 else None,
+                                     perm=rng.sample(range(n), n), uniform_c=rng.choice([1.0, 0.5, 3.0, 1.0 / n]), split=rng.randrange(n)), dyadic)
     return gen
 
 
@@ -1091,7 +1370,7 @@ def shrink(case):
     if cells > 1 or case["shape"]:
         for c in range(cells):
             s = dict(case, shape=[])
-            for k in ("vals", "vals2", "mask"):
+            for k in ("vals", "vals2", "mask", "mask_loc", "mask_scale"):
                 if case.get(k) is not None:
                     s[k] = [[row[c]] for row in case[k]]
             yield s
@@ -1099,7 +1378,10 @@ def shrink(case):
         for i in range(n):
             yield without_member(case, i)
     if case["mask"] is not None:
-        yield dict(case, mask=None)
+        yield dict(case, mask=None, mask_loc=None, mask_scale=None)
+    for k in ("kinds", "kinds2", "wtype", "dtype", "reuse"):
+        if case.get(k):
+            yield dict(case, **{k: None})
     if case.get("perm") and case["perm"] != list(range(n)):
         yield dict(case, perm=None)
     if case.get("split") is not None:
